@@ -333,7 +333,7 @@ def arr_to(a):
     return SymNd(out.reshape(a.shape))
 
 
-def kernel_shim(pkg, fn, spec, loop_bound=None):
+def kernel_shim(pkg, fn, spec, loop_bound=None, extern=None):
     """python callable that runs kernel `fn` of package `pkg` through Engine K.
     spec: list of dtype names for array arguments (None = scalar)."""
     def call(*args):
@@ -343,14 +343,14 @@ def kernel_shim(pkg, fn, spec, loop_bound=None):
         arrs = []
         for a, dt in zip(args, spec):
             if dt is None:
-                conv.append(_num(a) if isinstance(a, (SV, SB)) else a)
+                conv.append(_num(a) if isinstance(a, (SV, SB)) else (a.item() if isinstance(a, np.generic) else a))
             else:
                 ka = arr_from(a, dt)
                 conv.append(ka)
                 arrs.append((a, ka))
         lb = loop_bound or (max([max(k.shape) if k.shape else 1 for _, k in arrs] + [1]) + 1)
         run = kern.Run(mod, loop_bound=lb, split=False, hyps=ex.path_condition() if ex else None,
-                       prefix=f"kp{ex.nfresh if ex else 0}")
+                       prefix=f"kp{ex.nfresh if ex else 0}", extern=extern)
         res = run.call(fn, conv)
         if ex is not None:
             ex.nfresh += 1000
